@@ -65,7 +65,7 @@ def run_untrusted_check(prop, tier):
             ln -= 1
         case = json.loads(lines[ln])
         faulty = sorted("%s=%s" % (k, x) for k, x in case.get("f", {}).items() if x not in ("ok", "some"))
-        what = {"class": "class[%s]" % ",".join(faulty), "server": "server[%s@%s]" % (case.get("beh"), case.get("target")), "pin": "pin[%s]" % case.get("pin")}.get(case["kind"], "%s@%s" % (case["kind"], case.get("region")))
+        what = {"class": "class[%s]" % ",".join(faulty), "server": "server[%s@%s]" % (case.get("beh"), case.get("target")), "pin": "pin[%s,%s]" % (case.get("pin"), case.get("how", "plain"))}.get(case["kind"], "%s@%s" % (case["kind"], case.get("region")))
         counts[v["rule"][:50] + " | " + what] = counts.get(v["rule"][:50] + " | " + what, 0) + 1
         if not v["rule"].startswith(prop):
             continue
